@@ -413,3 +413,121 @@ Example repaired_refusal_ex :
   = (fold_left (fun t r => match add_row d_individuals t r with Ok t' => t' | _ => t end)
                [([1], [[10]; []; [7]])] (init d_individuals 0), Err TSK_ERR_BAD_OFFSET).
 Proof. vm_compute. reflexivity. Qed.
+
+Lemma init_wf_local d : WF d (init d 0) /\ abs (init d 0) = [].
+Proof.
+  pose proof (init_rep d 0 (Z.le_refl 0)) as R. split; [eapply TRep_WF; eassumption | apply (TRep_abs _ _ _ R)].
+Qed.
+
+(* ---------- the table's own offsets pass check_offsets (for tsk_*_table_copy) ---------- *)
+Lemma psum_step (cells : list (list Z)) j : (j < length cells)%nat ->
+  zlen (concat (firstn j cells)) <= zlen (concat (firstn (S j) cells)).
+Proof.
+  intros H. rewrite (concat_firstn_S _ _ H), zlen_app. pose proof (zlen_nonneg (nth j cells [])). lia.
+Qed.
+
+Lemma RRep_offsets_monotone n maxr c cells : RRep n maxr c cells ->
+  forall k j, 0 <= j -> j + Z.of_nat k <= n -> offsets_monotone k j (roff c) = Ok true.
+Proof.
+  intros R. pose proof (rr_n _ _ _ _ R) as N.
+  induction k as [|k IH]; intros j Hj Hk; [reflexivity|].
+  simpl. rewrite (RRep_off_nth _ _ _ _ j R) by lia. rewrite (RRep_off_nth _ _ _ _ (j + 1) R) by lia. cbn [bind].
+  replace (Z.to_nat (j + 1)) with (S (Z.to_nat j)) by lia.
+  pose proof (psum_step cells (Z.to_nat j) ltac:(unfold zlen in N; lia)) as P.
+  replace (zlen (concat (firstn (Z.to_nat j) cells)) >? zlen (concat (firstn (S (Z.to_nat j)) cells))) with false
+    by (symmetry; rewrite Z.gtb_ltb; apply Z.ltb_ge; lia).
+  apply IH; lia.
+Qed.
+
+Lemma RRep_check_offsets n maxr c cells : RRep n maxr c cells -> check_offsets n (roff c) = Ok tt.
+Proof.
+  intros R. pose proof (RRep_off_len _ _ _ _ R) as [_ N0]. unfold check_offsets.
+  rewrite (RRep_off_nth _ _ _ _ 0 R) by lia. cbn [bind]. simpl firstn. simpl concat.
+  change (zlen (@nil Z)) with 0. simpl negb. cbn iota.
+  rewrite (RRep_offsets_monotone _ _ _ _ R (Z.to_nat n) 0) by lia. reflexivity.
+Qed.
+
+Theorem table_copy_safe d t : WF d t -> order_ok d -> ok_or overflow_codes (snd (table_copy d t)).
+Proof.
+  intros W O. pose proof (WF_TRep _ _ W) as R. unfold table_copy.
+  destruct (init_wf_local d) as [W0 _].
+  destruct (clear_total _ _ W0) as [t0 C0]. rewrite C0.
+  pose proof (clear_rep _ _ _ _ (WF_TRep _ _ W0) C0) as R0.
+  pose proof (tr_n _ _ _ R) as N. pose proof (zlen_nonneg (abs t)) as Nn.
+  apply (append_columns_c_safe _ _ _ _ _ R0 O); [lia|].
+  repeat split; simpl.
+  - apply (tr_nf _ _ _ R).
+  - rewrite map_length. apply (tr_nr _ _ _ R).
+  - apply Forall_forall. intros buf Hb. apply In_nth_error in Hb as [j Hj].
+    pose proof (FRep_bounds _ _ _ _ (tr_f _ _ _ R _ _ Hj)). lia.
+  - apply Forall_forall. intros inp Hin. apply in_map_iff in Hin as (c & <- & Hc).
+    apply In_nth_error in Hc as [j Hj]. pose proof (tr_r _ _ _ R _ _ Hj) as Rc.
+    split; [apply (RRep_check_offsets _ _ _ _ Rc)|].
+    exists (rlen c). pose proof (RRep_data_len _ _ _ _ Rc). split; [|lia].
+    rewrite (RRep_off_nth _ _ _ _ (nrows t) Rc) by lia. f_equal.
+    pose proof (rr_n _ _ _ _ Rc) as Nc. rewrite firstn_all2 by (unfold zlen in Nc; lia).
+    symmetry. apply (rr_len _ _ _ _ Rc).
+Qed.
+
+(* ---------- update_row, both paths ---------- *)
+Lemma list_eqb_Z_eq' a b : list_eqb Z.eqb a b = true -> a = b.
+Proof. apply list_eqb_eq. intros x y. apply Z.eqb_eq. Qed.
+
+Theorem update_row_safe d t i r :
+  WF d t -> order_ok d -> row_ok d r = true ->
+  ok_or (extend_codes d) (snd (update_row d t i r)).
+Proof.
+  intros W O Hr. pose proof (WF_TRep _ _ W) as R. unfold update_row.
+  destruct (Z_lt_dec i 0) as [Lt|Ge]; [rewrite get_row_out_of_range' by (left; exact Lt); simpl; auto|].
+  destruct (Z_le_dec (nrows t) i) as [Le|Gt]; [rewrite get_row_out_of_range' by (right; exact Le); simpl; auto|].
+  assert (Hi : 0 <= i < nrows t) by lia.
+  rewrite (get_row_rep _ _ _ _ R Hi).
+  pose proof (tr_n _ _ _ R) as N.
+  assert (Li : (Z.to_nat i < length (abs t))%nat) by (unfold zlen in N; lia).
+  destruct (row_ok_lengths _ _ Hr) as [Lrf Lrr].
+  pose proof (tr_shape _ _ _ R) as Sh. rewrite Forall_forall in Sh.
+  destruct (row_ok_lengths _ _ (Sh _ (nth_In _ row0 Li))) as [_ Lcr].
+  destruct (list_eqb Z.eqb _ _) eqn:Same.
+  - (* in place: every store is inside the used part of its buffer *)
+    apply list_eqb_Z_eq' in Same.
+    destruct (map2M_exists (fun buf v => store buf (maxrows t) i v) (fcols t) (fst r)) as [fc Hfc].
+    { rewrite (tr_nf _ _ _ R). symmetry. exact Lrf. }
+    { intros j a b Ha Hb. unfold store. pose proof (tr_max _ _ _ R). apply blit_total; [lia | unfold zlen; simpl; lia]. }
+    destruct (map2M_exists (fun c vs => do a <- get (roff c) i; do dt <- blit (rdata c) (rmax c) a vs;
+                                       Ok (mkRag dt (rlen c) (rmax c) (rincr c) (roff c))) (rcols t) (snd r)) as [rc Hrc].
+    { rewrite (tr_nr _ _ _ R). symmetry. exact Lrr. }
+    { intros j c vs Hc Hv. pose proof (tr_r _ _ _ R _ _ Hc) as Rc.
+      pose proof (rr_n _ _ _ _ Rc) as Nc. pose proof (RRep_data_len _ _ _ _ Rc) as DL.
+      rewrite (RRep_off_nth _ _ _ _ i Rc) by lia. cbn [bind].
+      assert (Lc : (Z.to_nat i < length (rcol_of (abs t) j))%nat) by (unfold zlen in Nc; lia).
+      assert (Lv : zlen vs = zlen (nth (Z.to_nat i) (rcol_of (abs t) j) [])).
+      { unfold rcol_of. rewrite (nth_map_lt _ _ _ row0) by exact Li.
+        apply (f_equal (fun l => nth j l 0)) in Same.
+        rewrite !(nth_map_lt _ _ _ []) in Same.
+        - rewrite (nth_error_nth _ _ [] Hv) in Same. symmetry. exact Same.
+        - apply nth_error_Some. congruence.
+        - rewrite Lcr, <- Lrr. apply nth_error_Some. congruence. }
+      pose proof (psum_step _ _ Lc) as _.
+      assert (Up : zlen (concat (firstn (Z.to_nat i) (rcol_of (abs t) j))) + zlen vs <= rlen c).
+      { rewrite Lv. rewrite (rr_len _ _ _ _ Rc).
+        rewrite <- (firstn_skipn (S (Z.to_nat i)) (rcol_of (abs t) j)) at 3.
+        rewrite concat_app, zlen_app, (concat_firstn_S _ _ Lc), zlen_app.
+        pose proof (zlen_nonneg (concat (skipn (S (Z.to_nat i)) (rcol_of (abs t) j)))). lia. }
+      pose proof (rr_capd _ _ _ _ Rc). pose proof (zlen_nonneg (concat (firstn (Z.to_nat i) (rcol_of (abs t) j)))).
+      destruct (blit_total (rdata c) (rmax c) (zlen (concat (firstn (Z.to_nat i) (rcol_of (abs t) j)))) vs) as [dt Hd]; [lia | lia |].
+      rewrite Hd. cbn [bind]. eexists; reflexivity. }
+    unfold lift. rewrite Hfc. cbn [bind]. rewrite Hrc. cbn [bind]. exact I.
+  - (* rewrite: copy, truncate, add_row, extend *)
+    unfold update_row_rewrite.
+    pose proof (table_copy_safe _ _ W O) as Sc.
+    destruct (table_copy d t) as [cp stc] eqn:Cp. simpl in Sc.
+    destruct stc as [[]| | |]; simpl in *; try contradiction.
+    2:{ right. exact Sc. }
+    pose proof (table_copy_rep _ _ _ _ R O Cp) as Rc.
+    destruct (truncate_total _ _ i W) as [t1 T]; [lia|]. rewrite T.
+    pose proof (truncate_rep _ _ _ _ _ R T) as R1.
+    pose proof (add_row_safe d t1 r (TRep_WF _ _ _ R1) Hr) as Sa.
+    destruct (add_row d t1 r) as [t2| | |] eqn:A; simpl in Sa; try contradiction.
+    + apply extend_safe; [eapply TRep_WF; eapply add_row_rep; eassumption | eapply TRep_WF; exact Rc].
+    + simpl. right. exact Sa.
+Qed.
